@@ -20,7 +20,7 @@ seg.format_seg (the +1 / -1 sit inside .assign(...) calls); those stay with the 
 
 Later ties (the translator has since learnt f-strings of strings / ints and loop iterations): FnFormatsTrack (bedio track2track
 loop), FnFormatsToLabel (rangelabel.to_label whole, C08_source_to_label / _write_text), FnFormatsSegHeader (one iteration of
-parse_seg's header scan, C08_source_seg_header*).  Mutations tried with tools/mut_fn.sh:
+parse_seg's header scan, C08_source_seg_header*), FnFormatsGffKeep (read_gff's keep_type filter per row, C08_source_gff_*).  Mutations tried with tools/mut_fn.sh:
   FnFormatsToLabel    `{row.start + 1}` -> `{row.start}`                               KILLED (source_to_label)
                       `-{row.end}` -> `-{row.end + 1}`                                 KILLED
                       `{row.chromosome}:` -> `{row.chromosome}-`                       KILLED
@@ -29,7 +29,9 @@ parse_seg's header scan, C08_source_seg_header*).  Mutations tried with tools/mu
                       `elif n_tabs == 4:` -> `elif n_tabs == 3:`                       SURVIVED: the translator reads `if c: A
                           else: raise` as A under the recorded guard `not (n_tabs == 4)`, so this test is in the guard comment
                           only; the driver gen_find_header states the guard by hand (tabs in {0, 5, 4}) -- the correspondence
-                          check of C08 is what sees this mutation (5-column SEG files stop parsing)"""
+                          check of C08 is what sees this mutation (5-column SEG files stop parsing)
+  FnFormatsGffKeep    `dframe['type'] == keep_type` -> `!= keep_type`                  KILLED (source_gff_keep)
+                      `dframe = dframe[ok_type]` -> `dframe = dframe[~ok_type]`        KILLED"""
 
 _START = "['start'] = "
 
@@ -108,5 +110,16 @@ MODULES = {
              carried=[('col_names', 'LS')],
              params=[('col_names', 'LS'), ("line.count('\\t')", 'Z', 'tabs')],
              ret=['LS', 'B']),
+    ]),
+    # gff.read_gff: the `keep_type` filter (fragment `if keep_type: ok_type = dframe["type"] == keep_type; <log line>; dframe =
+    # dframe[ok_type]`) read per row as "the record stays in dframe" (row_keep).  keep_type is None or a string: only its
+    # truthiness and its equality with the type column are read, so None enters as the empty string.
+    # (Proofs/FnFormatsGffKeep.v: C08_source_gff_keep -- Model/Formats.v gff_keep, the filter of read_gff_full)
+    # mutations: `dframe['type'] == keep_type` -> `!= keep_type` KILLED; `dframe = dframe[ok_type]` -> `dframe = dframe[~ok_type]` KILLED
+    'FnFormatsGffKeep': ('skgenome/tabio/gff.py', [
+        dict(name='read_gff', coq='fn_gff_keep', py_params=['infile', 'tag', 'keep_type'],
+             fragment=dict(first='if keep_type', last='if keep_type'), row_keep='dframe',
+             init=[('row_keep__', 'B', 'true')], returns=['row_keep__'],
+             params=[('keep_type', 'S'), ("dframe['type']", 'S', 'type_')], ret='B'),
     ]),
 }
